@@ -55,7 +55,8 @@ def selfvalidate(rep, pid):
                        ("nest_and", "every `if a and b:` without else written as nested ifs"),
                        ("else_after_return", "code after `if c: ...return/raise/continue/break` moved into an else branch"),
                        ("module_alias", "package modules bound under other names (import matid.geometry as mgeom; constants as consts)"),
-                       ("keyword_arguments", "every positional argument of a package function / method / constructor call passed by keyword")):
+                       ("keyword_arguments", "every positional argument of a package function / method / constructor call passed by keyword"),
+                       ("swap_independent", "adjacent independent simple assignments exchanged")):
         vs.append(dict(pid=pid, name=f"twin: {what}", expect="silent", edits=[], tier="quick", mentions=None, transform=kind))
     with cf.ThreadPoolExecutor(min(16, os.cpu_count() or 4)) as ex:
         res = list(ex.map(selftest.run_variant, vs))
